@@ -50,7 +50,7 @@ class Notifications(object):
             return
         touched = tmp.pop(height)
         for old in [h for h in tmp if h <= height]:
-            del tmp[old]
+            touched.update(tmp.pop(old))
         for old in [h for h in tbp if h <= height]:
             touched.update(tbp.pop(old))
         await self.notify(height, touched)
